@@ -473,7 +473,128 @@ def handle_data(c):
     return {'res': res, 'ok': ok, 'msg': msg, 'sig': kind, 'kind': kind}
 
 
+
+# ----------------------------------------------------------------------------- group-level approximation around a solver
+
+class CubicImplicit(om.ImplicitComponent):
+    """R(x, y) = c3*y^3 + c1*y - k*x  (monotone in y: one real root), analytic partials for Newton"""
+
+    def initialize(self):
+        self.options.declare('n', types=int)
+        self.options.declare('coef', types=tuple)
+
+    def setup(self):
+        n = self.options['n']
+        self.add_input('x', np.ones(n))
+        self.add_output('y', np.ones(n))
+        ar = np.arange(n)
+        self.declare_partials('y', 'y', rows=ar, cols=ar)
+        self.declare_partials('y', 'x', rows=ar, cols=ar)
+
+    def apply_nonlinear(self, inputs, outputs, residuals):
+        c3, c1, k = self.options['coef']
+        y = outputs['y']
+        residuals['y'] = c3 * y * y * y + c1 * y - k * inputs['x']
+
+    def linearize(self, inputs, outputs, partials):
+        c3, c1, k = self.options['coef']
+        y = outputs['y']
+        partials['y', 'y'] = 3.0 * c3 * y * y + c1
+        partials['y', 'x'] = -k * np.ones(self.options['n'])
+
+
+class PostExplicit(om.ExplicitComponent):
+    def initialize(self):
+        self.options.declare('n', types=int)
+
+    def setup(self):
+        n = self.options['n']
+        self.add_input('x', np.ones(n))
+        self.add_input('y', np.ones(n))
+        self.add_output('z', np.ones(n))
+        ar = np.arange(n)
+        self.declare_partials('z', 'y', rows=ar, cols=ar)
+        self.declare_partials('z', 'x', rows=ar, cols=ar, val=0.5)
+
+    def compute(self, inputs, outputs):
+        outputs['z'] = inputs['y'] * inputs['y'] + 0.5 * inputs['x']
+
+    def compute_partials(self, inputs, partials):
+        partials['z', 'y'] = 2.0 * inputs['y']
+
+
+def handle_solve(c):
+    """approx_totals on a group / model whose nonlinear solve leaves small non-zero residuals: the three vectors
+    must be bitwise identical before and after compute_totals; the totals must be the implicit-function derivative"""
+    n = len(c['x'])
+    x = np.array([fl(v) for v in c['x']])
+    kw = approx_kwargs(c)
+    kw.pop('minimum_step', None)
+    kind = 'solve:%s:%s:%s:%s' % (c['level'], c['solver'], c['method'], c.get('form', '-') if c['method'] == 'fd' else '-')
+    p = om.Problem()
+    outer = p.model if c['level'] == 'total' else p.model.add_subsystem('G', om.Group(), promotes=['*'])
+    # the solver lives in an inner group; the enclosing group / model approximates its totals
+    parent = outer.add_subsystem('S', om.Group(), promotes=['*'])
+    if c['solver'] == 'newton':
+        coef = tuple(fl(v) for v in c['coef'])
+        parent.add_subsystem('imp', CubicImplicit(n=n, coef=coef), promotes=['*'])
+        outer.add_subsystem('post', PostExplicit(n=n), promotes=['*'])
+        parent.nonlinear_solver = om.NewtonSolver(solve_subsystems=False, atol=fl(c['atol']), rtol=1e-300,
+                                                  maxiter=40, iprint=-1)
+        parent.linear_solver = om.DirectSolver()
+    else:
+        a, b = fl(c['coef'][0]), fl(c['coef'][1])
+        parent.add_subsystem('c1', om.ExecComp('y = %r * w + x' % a, y=np.ones(n), w=np.ones(n), x=np.ones(n)),
+                             promotes=['*'])
+        parent.add_subsystem('c2', om.ExecComp('w = %r * y + 1.0' % b, y=np.ones(n), w=np.ones(n)), promotes=['*'])
+        outer.add_subsystem('post', PostExplicit(n=n), promotes=['*'])
+        parent.nonlinear_solver = om.NonlinearBlockGS(atol=fl(c['atol']), rtol=1e-300, maxiter=200, iprint=-1)
+        parent.linear_solver = om.DirectSolver()
+    outer.approx_totals(**kw)
+    p.setup(force_alloc_complex=True)
+    p.set_val('x', x)
+    p.final_setup()
+    p.run_model()
+    s0 = snapshot(p.model)
+    nzres = bool(np.any(p.model._residuals.asarray() != 0.0))
+    tot = p.compute_totals(of=['y', 'z'], wrt=['x'], return_format='array')
+    s1 = snapshot(p.model)
+    kind += ':resid!=0' if nzres else ':resid=0'
+    if s0 != s1:
+        which = [nm for nm, a, b2 in zip(('inputs', 'outputs', 'residuals'), s0, s1) if a != b2]
+        r0 = np.frombuffer(s0[2]).tolist()
+        r1 = np.frombuffer(s1[2]).tolist()
+        return {'res': '__none__', 'ok': False, 'sig': 'state:' + kind, 'kind': kind,
+                'msg': '%s differ bitwise after compute_totals with approx_totals; residuals before %r, after %r'
+                       % (', '.join(which), r0[:6], r1[:6])}
+    # implicit-function derivative at the converged point
+    y = np.asarray(p.get_val('y')).ravel()
+    if c['solver'] == 'newton':
+        c3, c1, k = coef
+        dy = k / (3.0 * c3 * y * y + c1)
+    else:
+        dy = np.full(n, 1.0 / (1.0 - a * b))
+    dz = 2.0 * y * dy + 0.5
+    want = np.vstack([np.diag(dy), np.diag(dz)])
+    h = abs(fl(c['step']))
+    # the solver tolerance limits the accuracy of the perturbed solves (linear convergence for NLBGS)
+    cs_tol = 1e-6 if c['solver'] == 'newton' else 1e-4
+    tol = (cs_tol if c['method'] == 'cs' else 20.0 * h + 1e-4) * (1.0 + np.abs(want))
+    if c['solver'] == 'nlbgs' and c['method'] == 'cs':
+        # the block Gauss-Seidel iteration stops on the norm of the (unperturbed) real residual, so the imaginary
+        # part is only as converged as the iteration count happens to make it: state comparison only
+        tol = np.full_like(want, np.inf)
+    bad = np.argwhere(np.abs(tot - want) > tol)
+    if len(bad):
+        i, j = bad[0]
+        return {'res': '__none__', 'ok': False, 'sig': 'value:' + kind, 'kind': kind,
+                'msg': 'total[%d,%d] = %r, implicit-function derivative %r' % (i, j, tot[i, j], want[i, j])}
+    return {'res': '__none__', 'ok': True, 'msg': '', 'sig': kind, 'kind': kind}
+
+
 def handle(c):
+    if c['kind'] == 'solve':
+        return handle_solve(c)
     if c['kind'] == 'data':
         return handle_data(c)
     return handle_jac(c)
